@@ -26,6 +26,7 @@ RULE = (
     "with the configured environment, or with the documented default computed independently of the library from the host's variables at that moment, shows, it saw initialize then notifications/initialized, timeout is float or None, test_server is True, run_command hands the command one "
     "stream pair per configured server; malformed -> FileNotFoundError / JSONDecodeError / ValueError, test_server False, run_command launches nothing and does not raise; "
     "non-trivial = args with whitespace/quotes/non-ASCII/empty strings, or env present, or >1 server; distinct = distinct configuration"
+    "; added in rounds 6-7 of the seeded changes: slow-starting servers inside their own timeouts; one command line under several names (env differs); first spawn attempt refused by the OS"
 )
 ASSUMPTIONS = [
     "real child processes; scratch directories are created per case and removed",
